@@ -135,7 +135,11 @@ pub fn gen_jitter_spec(rng: &mut Prng, prop: &str, allowed: &[CF], c16_bias: boo
             spec.rounds = Some(r as u8);
             spec.variant = "jitter_history_crafted_value".into();
             // the first operation takes the crafted value in halves
-            let first_ops = match rng.below(4) {
+            let first_ops = match rng.below(8) {
+                4 => vec![Op::U64, Op::U64],
+                5 => vec![Op::Fill(8), Op::U64],
+                6 => vec![Op::Fill(16), Op::U32],
+                7 => vec![Op::Fill(rng.range(9, 24) as u32)],
                 0 => vec![Op::U32, Op::U32],
                 1 => vec![Op::U32, Op::U32, Op::U32],
                 2 => vec![Op::U32, Op::CloneThen(Box::new(Op::U32)), Op::U32],
